@@ -38,7 +38,9 @@
 //    (ostringstream), default_level_streams / default_stream (std::clog), format::time_stamp, level_input/output:
 //    iostream and locale are not modelled.  The level streams of the harness refer to std::clog as an opaque object
 //    that is never written (natively nothing is written either because the stub counter decides, see emitted()).
-//  * Histories longer than k = 3 (quick) / 4 (thorough), depth > 2, more than 2 names per level.
+//  * Histories longer than k = 3 (k = 2 with every first step and k = 3 starting with a set in the quick tier; k = 3 with
+//    every first step and k = 4 of the form set;create;set;any in the thorough tier), location depth > 2, more than 2
+//    names per level.  The statement's "length 60, depth 3, 3 names" is not reachable by path enumeration.
 //@property C19
 //@unity log
 //@flags -DENABLE_THREADS
@@ -481,7 +483,7 @@ void observe()
 }
 
 // histories: op0/loc0 (params; a value outside the range means "chosen by the solver") partition the first step for
-// parallelism; nocreate1 = 1 restricts the second step to set/get (used for the longest histories)
+// parallelism
 VERIF_HARNESS(h_hist)
 {
   unsigned const k = static_cast<unsigned>(verif_param("k"));
@@ -493,14 +495,14 @@ VERIF_HARNESS(h_hist)
   teardown();
   verif_reach("hist-end");
 }
-// k = 4: set(loc0) ; set or create ; any ; any
+// k = 4: set(loc0) ; create an object anywhere ; set anywhere ; any operation anywhere
 VERIF_HARNESS(h_hist4)
 {
   unsigned const loc0 = static_cast<unsigned>(verif_param("loc0"));
   setup();
   step(OP_SET, loc0);
-  step(pick("op", 0, 1) == 0 ? OP_SET : OP_CREATE, NLOC);
-  step(NOPS, NLOC);
+  step(OP_CREATE, NLOC);
+  step(OP_SET, NLOC);
   step(NOPS, NLOC);
   final_checks(false);
   observe();
@@ -532,7 +534,7 @@ VERIF_HARNESS(h_objects)
 //@harness h_hist param k=2 param op0=0..2 param loc0=9 tier=quick loop=40 leak=1
 // k = 3 starting with a set: one location per class under renaming a<->b in the quick tier, the mirror images in thorough
 //@harness h_hist param k=3 param op0=0 param loc0=0,1,3,4 tier=quick loop=40 leak=1
-//@harness h_hist param k=3 param op0=0 param loc0=2,5,6 tier=thorough loop=40 leak=1
-//@harness h_objects param how=0..1 param l0=0..6 tier=quick loop=40 leak=1
-//@harness h_hist param k=3 param op0=1..2 param loc0=0..6 tier=thorough loop=40 leak=1 paths=60000 wall=1500
-//@harness h_hist4 param loc0=0..6 tier=thorough loop=40 leak=1 paths=100000 wall=2400
+//@harness h_hist param k=3 param op0=0 param loc0=2,5,6 tier=thorough loop=40 leak=1 paths=100000 wall=3000
+//@harness h_hist param k=3 param op0=1 param loc0=0,4 tier=thorough loop=40 leak=1 paths=100000 wall=3000
+//@harness h_hist param k=3 param op0=2 param loc0=1..6 tier=thorough loop=40 leak=1 paths=100000 wall=3000
+//@harness h_hist4 param loc0=0,1,4 tier=thorough loop=40 leak=1 paths=200000 wall=3000
